@@ -100,6 +100,20 @@ VF_HARNESS(reinterpret_in_place) {   // reinterpret_array_cast<U>(): each elemen
   vf_reach("reinterpret_in_place");
 }
 template<class V, std::size_t... I> static auto& at_plus(V&& v, L const* i, L j, std::index_sequence<I...>) { return v(i[I]..., j); }
+VF_HARNESS(casts_on_rebased) {   // the casts that do not scale the layout, on a source with NON-ZERO index bases: same extensions, same elements
+  Spec<D> s = arbitrary_spec<D>(1, 2, MEMSZ2);
+  auto v = view_of<D, E>(s, g_e); auto const& cv = v;
+  L i[D]; arbitrary_index(s, i); L c = spec_addr(s, i);
+  vf_assert(&elem_brackets(v.static_array_cast<E const>(), i) == &g_e[c] && v.static_array_cast<E const>().layout() == v.layout(), "static_array_cast keeps layout and element identity");
+  // (reinterpret_array_cast and member_cast go through layout_t::scale, which asserts a zero offset: re-based sources are outside their domain)
+  { auto t = cv.element_transformed([](E const& e) { return e.a + 1; });
+    vf_assert(elem_brackets(t, i) == 100 + c + 1, "element_transformed of a re-based view: f(source element) at the same index tuple"); }
+#if DIM >= 2
+  vf_assert(&elem_brackets(cv.as_const(), i) == &g_e[c] && cv.as_const().layout() == v.layout(), "as_const keeps layout and element identity");
+  vf_assert(&elem_brackets(cv.const_array_cast(), i) == &g_e[c] && cv.const_array_cast().layout() == v.layout(), "const_array_cast keeps layout and element identity");
+#endif
+  vf_reach("casts_on_rebased");
+}
 VF_HARNESS(reinterpret_trailing_dimension) {   // reinterpret_array_cast<U>(n): a trailing dimension of size n over each element's bytes
   Spec<D> s = src_spec(1);
   auto v = view_of<D, E>(s, g_e);
